@@ -85,6 +85,8 @@ pub struct Probes {
     pub guard_send_refused: u64,
     pub guards_sent: u64,
     pub foreign_guards_dropped: u64,
+    pub guards_taken_apart: u64,
+    pub take_apart_refused: u64,
 }
 
 pub struct Runner<'a> {
@@ -891,7 +893,7 @@ impl<'r, 'a> Th<'r, 'a> {
                     Ok(g) => {
                         self.st.check_try_outcome(ctx, &q, true);
                         self.st.after_acquire(ctx, &rec);
-                        self.body_and_release(ctx, g, T::unlock, T::send_guard);
+                        self.body_and_release(ctx, g, T::unlock, T::send_guard, T::take_apart);
                         self.st.check_try_restored(ctx, &q, "after the guard was released");
                     }
                     Err(k) => {
@@ -908,7 +910,7 @@ impl<'r, 'a> Th<'r, 'a> {
                     Ok(g) => {
                         self.st.check_try_outcome(ctx, &q, true);
                         self.st.after_acquire(ctx, &rec);
-                        self.body_and_release(ctx, g, T::unlock_read, T::send_read_guard);
+                        self.body_and_release(ctx, g, T::unlock_read, T::send_read_guard, T::take_apart_read);
                         self.st.check_try_restored(ctx, &q, "after the guard was released");
                     }
                     Err(k) => {
@@ -1063,10 +1065,18 @@ impl<'r, 'a> Th<'r, 'a> {
         }
     }
 
-    fn body_and_release<'g, G: Held + 'g>(&mut self, ctx: &Ctx, mut g: G, unlock: impl FnOnce(G) -> ThreadKey, send: impl FnOnce(G) -> Result<Box<dyn crate::caps::Opaque + Send + 'g>, G>) {
+    #[allow(clippy::type_complexity)]
+    fn body_and_release<'g, G: Held + 'g>(
+        &mut self,
+        ctx: &Ctx,
+        mut g: G,
+        unlock: impl FnOnce(G) -> ThreadKey,
+        send: impl FnOnce(G) -> Result<Box<dyn crate::caps::Opaque + Send + 'g>, G>,
+        take: impl FnOnce(G) -> Result<Vec<Box<dyn crate::caps::Opaque + 'g>>, G>,
+    ) {
         if ctx.acq.release != Release::UnlockInDrop {
             self.st.body(&self.cell, &mut g, ctx);
-            self.release(ctx, g, unlock, send);
+            self.release(ctx, g, unlock, send, take);
             return;
         }
         // the guard lives inside a user value whose destructor hands it to unlock(): that runs
@@ -1092,8 +1102,51 @@ impl<'r, 'a> Th<'r, 'a> {
         }
     }
 
-    fn release<'g, G: 'g>(&mut self, ctx: &Ctx, g: G, unlock: impl FnOnce(G) -> ThreadKey, send: impl FnOnce(G) -> Result<Box<dyn crate::caps::Opaque + Send + 'g>, G>) {
+    #[allow(clippy::type_complexity)]
+    fn release<'g, G: 'g>(
+        &mut self,
+        ctx: &Ctx,
+        g: G,
+        unlock: impl FnOnce(G) -> ThreadKey,
+        send: impl FnOnce(G) -> Result<Box<dyn crate::caps::Opaque + Send + 'g>, G>,
+        take: impl FnOnce(G) -> Result<Vec<Box<dyn crate::caps::Opaque + 'g>>, G>,
+    ) {
         let s = self.st.s();
+        if ctx.acq.release == Release::TakeApart {
+            s.api_begin(ApiKind::Release, false);
+            let r = take(g);
+            let _ = s.api_end();
+            match r {
+                Ok(pieces) => {
+                    self.st.probe(|p| p.guards_taken_apart += 1);
+                    // the iterator is gone; if the key is obtainable again, nothing may still be held
+                    let k = ThreadKey::get();
+                    let held = s.held();
+                    if k.is_some() && !held.is_empty() {
+                        s.report(Clause::KeyBackWhileHolding, format!("the guard of {:?} on target {} was consumed by value (IntoIterator), its {} items were kept and the iterator dropped: the thread's key is obtainable again while it still holds {:?}", ctx.acq.api, ctx.acq.target, pieces.len(), held));
+                    }
+                    s.api_begin(ApiKind::Release, false);
+                    drop(pieces);
+                    let _ = s.api_end();
+                    match k.or_else(ThreadKey::get) {
+                        Some(k) => self.kh.key = Some(k),
+                        None => self.kh.leaked = true,
+                    }
+                }
+                Err(g) => {
+                    self.st.probe(|p| p.take_apart_refused += 1);
+                    s.api_begin(ApiKind::Release, false);
+                    drop(g);
+                    self.kh.alive = false;
+                    let _ = s.api_end();
+                    let held = s.held();
+                    if !held.is_empty() {
+                        s.report(Clause::KeyBackWhileHolding, format!("guard of {:?} on target {} was dropped but the caller still holds {:?}", ctx.acq.api, ctx.acq.target, held));
+                    }
+                }
+            }
+            return;
+        }
         if ctx.acq.release == Release::SendAway {
             match send(g) {
                 Ok(b) => {
@@ -1131,7 +1184,7 @@ impl<'r, 'a> Th<'r, 'a> {
                 std::mem::forget(g);
                 self.kh.leaked = true;
             }
-            Release::UnlockInDrop | Release::SendAway => unreachable!("happysim: handled elsewhere"),
+            Release::UnlockInDrop | Release::SendAway | Release::TakeApart => unreachable!("happysim: handled elsewhere"),
         }
         let _rec = s.api_end();
         if ctx.acq.release != Release::Forget {
@@ -1191,6 +1244,8 @@ impl<'r, 'a> Th<'r, 'a> {
                 SNode::RefB(h) => self.run_api(h.get(), ctx),
                 SNode::PBoxedV(c) => self.run_api(&**c, ctx),
                 SNode::PRetryB(c) => self.run_api(&**c, ctx),
+                SNode::BoxedA2(c) => self.run_api(c, ctx),
+                SNode::RetryA3(c) => self.run_api(&**c, ctx),
             },
             Node::Group(_) | Node::Group0 => self.st.s().report(Clause::Harness, "a bare container was generated as a top-level target".into()),
         }
